@@ -543,7 +543,7 @@ func (o *c03Obs) checkState(w *world) {
 					switch {
 					case w.cfg.Scripts[i] == sFailDo:
 						want = fmt.Sprintf("boom-%d", i)
-					case w.cfg.Scripts[i] == sFailUndo:
+					case w.cfg.Scripts[i] == sFailUndo || w.cfg.Scripts[i] == sLogErrFailUndo:
 						want = fmt.Sprintf("undo-boom-%d", i)
 					}
 					alt := fmt.Sprintf("aborted-%d", i)
@@ -640,11 +640,14 @@ func TestVerifC03(t *testing.T) {
 	{
 		sp := scriptSpace{failDo: 1, failUndo: 0, requireFail: true, specials: []script{sUndoWait}, maxSpecial: r.Pick(1, 2)}
 		fam := enumConfigs([]int{3, 4}, sp, false, []int{0})
+		// a task whose log already holds an ERROR line (a failure its do handler ignored) and whose undo then fails
+		// with a different error: Err() must report the error the task failed with
+		fam = append(fam, enumConfigs([]int{2, 3}, scriptSpace{failDo: 1, requireFail: true, specials: []script{sLogErrFailUndo}, maxSpecial: 1}, false, []int{0})...)
 		var keep []*erConfig
 		for _, c := range fam {
 			hasUW := false
 			for _, s := range c.Scripts {
-				if s == sUndoWait {
+				if s == sUndoWait || s == sLogErrFailUndo {
 					hasUW = true
 				}
 			}
